@@ -30,7 +30,10 @@ RULE = ("reaction networks in both views (bipartite with / without stoichiometry
         "species permutations; seeded random <= 6 species x 5 reactions; rings (2..6; plain / shared catalyst / private "
         "catalyst per step / dimer / reversible) and stars of identical reactions with stoichiometry perturbations under "
         "many renamings; 11-reaction networks (two-digit ids); sequences of analyses with different options on ONE "
-        "hypergraph object, mutated in between; a case is non-trivial when some view has >= 4 nodes and either a "
+        "hypergraph object, mutated in between; histories on one object with count-preserving in-place edits (reaction replaced under its id, "
+        "coefficient edited, species removed but kept), results scribbled on and analyzers re-read; integer_ids; degenerate values (empty "
+        "network, isolated / falsy-labelled species, null steps, empty sides); non-default attribute selections and WL options (oracle only); "
+        "chains of 12 / 40 reactions; a case is non-trivial when some view has >= 4 nodes and either a "
         "non-singleton cell survives the first refinement (individualisation needed) or a non-trivial automorphism exists; "
         "distinct = distinct (configuration, list of networks)")
 EXHAUSTIVE = {"quick": True, "thorough": True}
@@ -54,8 +57,10 @@ TRUSTED_BASE = [
 ]
 ASSUMPTIONS = ["species labels are disjoint from reaction ids (the views put both in one namespace; the collision is the known finding "
                "C18:view-id-collision, theorem C18_species_renaming_refuted); clause 2 is therefore proved for renamings of the VIEW's nodes",
-               "default node_attr_keys=('kind',) and edge_attr_keys=('role','stoich'); integer_ids=False (integer_ids=True only inside the "
-               "one-object sequences, compared with a fresh object)",
+               "model: default node_attr_keys=('kind',) and edge_attr_keys=('role','stoich'); integer_ids=True is modelled through the encoding "
+               "(the model receives the network with the converter's numbers as ids; C18_net_renamed_ids); non-default attribute selections "
+               "and WL options are judged by the oracle only",
+               "views above 45 nodes are judged by the oracle only (the model's refinement is O(n^4) under vm_compute)",
                "stoichiometric coefficients are positive integers", "no max_depth / timeout given to the canonicaliser"]
 TESTED_NOT_PROVED = ["WLCanonicalizer (documented as approximate): its canonical graph is isomorphic to the view and its colour cells "
                      "never split a true orbit (oracle only)",
@@ -180,7 +185,8 @@ def _impl_H(H, view, stoich, intids=False, keep=None):
             S(cn), S(ca),
             A["automorphism_count"],
             S([S(sorted(rank[v] for v in o)) for o in A["orbits"]]),
-            _premises(G)]
+            _premises(G),
+            [S([[rank[k], rank[v]] for k, v in m.items()]) for m in s["mappings"]]]
 
 
 def _add_extra(H, net0, net1):
@@ -815,7 +821,7 @@ def distribution(cases, obss):
         cfg[k] = cfg.get(k, 0) + 1
         for r in c["rel"]:
             rels[r] = rels.get(r, 0) + 1
-        if not (isinstance(obs, list) and obs and isinstance(obs[0], list) and len(obs[0]) == 13):
+        if not (isinstance(obs, list) and obs and isinstance(obs[0], list) and len(obs[0]) == 14):
             continue
         for o in obs:
             nets += 1
@@ -1374,7 +1380,7 @@ def gen_cases(tier, rng):
     cases += _intids_cases(rng)
     cases += _attr_cases(rng)
     cases += _hist_cases(rng, 30 if tier == "quick" else 300)
-    cases += _big_cases(rng, [12, 40] if tier == "quick" else [12, 40, 120])
+    cases += _big_cases(rng, [12, 40] if tier == "quick" else [12, 40, 100])
     cases += _seq_cases(rng, 24 if tier == "quick" else 400)
     if tier == "quick":
         cases += _ring_cases(rng, [2, 3, 4, 5, 6], more=3)
@@ -1393,7 +1399,7 @@ def gen_cases(tier, rng):
     return cases
 
 
-LEVEL_TEXT = ("Machine-checked proof (Coq, 20 theorems, closed under the global context) over an executable model of CRNCanonicalizer / "
+LEVEL_TEXT = ("Machine-checked proof (Coq, 22 theorems, closed under the global context) over an executable model of CRNCanonicalizer / "
               "CRNAutomorphism and the two network views, for ALL views: the canonical graph is the view relabelled by a bijection onto "
               "k+1..k+n (clause 1); a view renamed by a map injective on its nodes and presented in any other node/arc order gets the same "
               "minimal label and the identical canonical graph (clause 2: signature/label/initial partition equivariant, generic IR leaf "
